@@ -419,3 +419,55 @@ def full_precision_map(rng):
     th = rng.choice([0.0, 0.0, rng.random() * 6.28])
     c, sn = math.cos(th), math.sin(th)
     return lambda p: ((p[0] * c - p[1] * sn) * s + ox, (p[0] * sn + p[1] * c) * s + oy)
+
+
+def hole_contact_pair(rng):
+    """A = a large polygon with 1-2 holes whose edges are integer multiples of primitive lattice vectors with slopes that are not
+    dyadic (so that cutting them anywhere but at a lattice point gives a non-representable vertex); B = a much smaller polygon,
+    line or point whose vertices lie exactly ON one hole segment (or, for contrast, on a shell segment), lying in the hole, in
+    the material of A, or across the edge.  The result envelope of A op B is a small part of A: OverlayNG's clipping is active."""
+    import math
+    def prim():
+        while True:
+            a, b = rng.randint(1, 9), rng.randint(1, 9)
+            if math.gcd(a, b) == 1 and a != b and (a & (a - 1)) != 0: return (a, b)
+    S = 60 * M
+    shell = ring_rect(0, 0, S, S)
+    holes = []
+    # first hole: triangle p, p + k u, p + m v  (u, v primitive, different directions)
+    for attempt in range(20):
+        u, v = prim(), prim()
+        v = (-v[0], v[1]) if rng.random() < 0.5 else (v[1], v[0])
+        if u[0] * v[1] - u[1] * v[0] == 0: continue
+        k, m = rng.randint(3, 6), rng.randint(3, 6)
+        p = (M * rng.randint(4, 12), M * rng.randint(4, 12))
+        q = (p[0] + k * u[0] * M, p[1] + k * u[1] * M); r = (p[0] + m * v[0] * M, p[1] + m * v[1] * M)
+        h = [p, q, r, p]
+        if all(0 < x < S and 0 < y < S for x, y in h) and hole_fits(shell, h):
+            holes.append((h, p, u, k)); break
+    if not holes: return None
+    if rng.random() < 0.4:
+        h2 = ring_rect(S - 10 * M, S - 10 * M, S - 6 * M, S - 7 * M)
+        if hole_fits(shell, h2) and not any(segs_meet(h2[i], h2[i + 1], holes[0][0][j], holes[0][0][j + 1]) for i in range(4) for j in range(3)):
+            if rng.random() < 0.5: holes.append((h2, None, None, None))
+            else: holes.insert(0, (h2, None, None, None))          # the contact hole is then not the first one
+    A = ('PG', [shell] + [h[0] for h in holes])
+    h, p, u, k = [x for x in holes if x[1] is not None][0]
+    on_shell = rng.random() < 0.15
+    if on_shell:
+        p, u, k = (0, 10 * M), (0, 1), 20          # shell edge x = 0 traversed downwards in ring order: use lattice points on it
+    i = rng.randint(0, k - 1); j = rng.randint(i + 1, k)
+    c1 = (p[0] + i * u[0] * M, p[1] + i * u[1] * M); c2 = (p[0] + j * u[0] * M, p[1] + j * u[1] * M)
+    # a third point off the edge, on either side, close by
+    n = (-u[1], u[0]) if rng.random() < 0.5 else (u[1], -u[0])
+    t = rng.randint(1, 3)
+    c3 = ((c1[0] + c2[0]) // 2 + n[0] * t * M, (c1[1] + c2[1]) // 2 + n[1] * t * M)
+    kind = rng.random()
+    if kind < 0.55: B = ('PG', [[c1, c2, c3, c1]]); lab = 'triangle-on-hole-edge'
+    elif kind < 0.7:
+        c4 = ((c1[0] + c2[0]) // 2 - n[0] * t * M, (c1[1] + c2[1]) // 2 - n[1] * t * M)
+        B = ('PG', [[c1, c3, c2, c4, c1]]); lab = 'kite-across-hole-edge'
+    elif kind < 0.85: B = ('LS', [c3, c1, c2] if rng.random() < 0.5 else [c1, c2]); lab = 'line-along-hole-edge'
+    else: B = ('MPT', [c1, c3]); lab = 'points-on-hole-edge'
+    if on_shell: lab = lab.replace('hole', 'shell')
+    return A, B, lab
